@@ -209,6 +209,23 @@ def plain(value: Any) -> Any:
     return value
 
 
+_NEEDS: Dict[Any, bool] = {}
+
+
+def needs_readings(desc: tuple) -> bool:
+    """Whether the spec has anything the open readings are about: a nested namespace that is optional, not populated or
+    has a default of its own."""
+    if desc not in _NEEDS:
+        def walk(e: tuple, depth: int) -> bool:
+            if R.is_port(e):
+                return False
+            if depth and (not e[1] or not e[3] or R.ns_default(e) != NODEFAULT):
+                return True
+            return any(walk(sub, depth + 1) for _, sub in e[5])
+        _NEEDS[desc] = walk(desc, 0)
+    return _NEEDS[desc]
+
+
 def poke_nested(mapping: Dict[str, Any]) -> None:
     """The caller goes on using the nested dictionaries it passed in."""
     for value in list(mapping.values()):
@@ -298,10 +315,24 @@ def check_spec(desc: tuple) -> Dict[str, Any]:
             readings: List[Tuple[bool, Any]] = []
             for strict, skip_absent in ((False, False), (True, False), (True, True)):
                 for verbatim in (False, True):
-                    try:
-                        readings.append((True, R.accept(desc, copy.deepcopy(given), strict, verbatim, skip_absent)))
-                    except R.Rejected as exc:
-                        readings.append((False, str(exc)))
+                    for require_ns in (False, True):  # a required, non-populated namespace that was not supplied: missing?
+                        for keep_empty in (False, True):  # {} given for a non-populated namespace: filled in or kept?
+                            try:
+                                readings.append((True, R.accept(desc, copy.deepcopy(given), strict, verbatim, skip_absent,
+                                                                require_ns, keep_empty)))
+                            except R.Rejected as exc:
+                                readings.append((False, str(exc)))
+                            if len(readings) == 1 and not needs_readings(desc):
+                                break  # (nothing in this spec that the readings could differ on)
+                        else:
+                            continue
+                        break
+                    else:
+                        continue
+                    break
+                else:
+                    continue
+                break
             want_ok, want = readings[0]
             verdicts = {ok for ok, _ in readings}
 
